@@ -64,6 +64,12 @@ def run(tier):
         plist.append({"name": name, "steps": [("snip", src)], "mods": [], "budget": 3000000})
     base = {}
 
+    from ..gen import feat_fiber as _ff
+    rxf = ck.rng.fork("xmodfib")
+    for i in range(250 if quick else 8000):
+        _src, _mods = _ff.xmod_fiber_program(rxf.fork(str(i)))
+        plist.append({"name": "xmodfiber/%d" % i, "steps": [("snip", _src)], "mods": _mods})
+
     def seen(p, m, res):
         v = m["view"][0]
         src = p["steps"][0][1]
